@@ -278,8 +278,11 @@ func batch(t *testing.T, name string, h Harness) {
 			break
 		}
 		sum.Progress = idx
-		if idx%64 == 0 {
+		if (idx-*fFrom)%32 == 0 {
 			flush()
+		}
+		if *fOut != "" {
+			_ = os.WriteFile(*fOut+".progress", []byte(fmt.Sprint(idx)), 0o644)
 		}
 		plan := h.Generate(*fProp, PlanRNG(*fSeed, *fProp, idx, 0), *fTier)
 		cfg := DrawConfig(*fSeed, *fProp, idx)
